@@ -161,6 +161,10 @@ fn c11(seed: u64, thorough: bool) -> Scenario {
         }
         if g.rng.chance(1, 3) {
             g.world.args.globs = vec!["**/*.py".into(), "**/*.rb".into()];
+            if g.rng.chance(1, 4) {
+                // globs are case-sensitive: these select nothing
+                g.world.args.globs = vec!["**/*.PY".into(), "**/*.Rb".into()];
+            }
         }
         tags.push("diff".to_string());
     } else {
@@ -858,6 +862,13 @@ fn c14(seed: u64, thorough: bool) -> Scenario {
     g.world.args.long_flags = g.rng.chance(1, 2);
     g.world.args.flags_last = g.rng.chance(1, 3);
     g.world.args.joined_flags = g.rng.chance(1, 3);
+    // the flags are global: `list` must reject the same flag combinations, also when the flags
+    // stand on different sides of the subcommand
+    if (80..95).contains(&shape) && g.rng.chance(1, 3) {
+        g.world.args.list = true;
+        g.world.args.split_flags = g.rng.chance(2, 3);
+        tags.push("list".into());
+    }
     // positional globs next to the flags (and next to a diff: files the globs do not match are
     // then examined through the diff only)
     if g.rng.chance(1, 3) {
@@ -1012,9 +1023,28 @@ fn c15(seed: u64, thorough: bool) -> Scenario {
             _ => format!("**/*.{ext}"),
         }
     };
+    // letter case matters in globs: a glob that fits a path only when case is disregarded fits nothing
+    let flip_case = |gl: String, g: &mut Gen| -> String {
+        if g.rng.chance(1, 12) && !gl.contains(['[', '{']) {
+            let mut done = false;
+            gl.chars()
+                .map(|c| {
+                    if !done && c.is_ascii_alphabetic() {
+                        done = true;
+                        if c.is_ascii_lowercase() { c.to_ascii_uppercase() } else { c.to_ascii_lowercase() }
+                    } else {
+                        c
+                    }
+                })
+                .collect()
+        } else {
+            gl
+        }
+    };
     let ng = *g.rng.pick(&[0usize, 0, 1, 1, 2, 3]);
     for _ in 0..ng {
         let gl = make_glob(&mut g);
+        let gl = flip_case(gl, &mut g);
         g.world.args.globs.push(gl);
     }
     // every positional argument an exact path, one of them naming a hidden / git-ignored file:
@@ -1037,6 +1067,7 @@ fn c15(seed: u64, thorough: bool) -> Scenario {
     let ni = *g.rng.pick(&[0usize, 0, 1, 1, 2, 3]);
     for _ in 0..ni {
         let gl = make_glob(&mut g);
+        let gl = flip_case(gl, &mut g);
         g.world.args.ignore.push(gl);
     }
     let _ = all_exts;
